@@ -84,6 +84,28 @@ Definition step (st : rstate) (op : list tok) : rstate * list tok :=
     else if name =? "drain_check" then
       let '(c2, s2, ms) := drain_rounds (decodable_of (rbad st)) 64 c s [] in
       (mkr c2 s2 (rbad st), flat_map res_msg_toks ms ++ [TS "st"] ++ st_toks c2)
+    else if name =? "sndbuf" then (st, [])
+    else if name =? "writable_p" then
+      (* back-pressure variant: the peer does not read; the number of bytes the
+         kernel accepted is an input (taken from the implementation's run by
+         props/c11.py:model_ops), everything else is predicted *)
+      match args with
+      | [TN n] =>
+        let k := Z.to_nat n in
+        let sched := if Nat.eqb k (avail_data (back c)) then [k] else [k; O] in
+        let '(c', s', r) := writable c (mksock (inq s) (ineof s) sched (outq s)) in
+        (mkr c' (mksock (inq s') (ineof s') [] (outq s')) (rbad st), res_nat_toks r ++ st_toks c')
+      | _ =>
+        let '(c', s', r) := writable c (mksock (inq s) (ineof s) [] (outq s)) in
+        (mkr c' (mksock (inq s') (ineof s') [] (outq s')) (rbad st), res_nat_toks r ++ st_toks c')
+      end
+    else if name =? "peer_read" then
+      match args with
+      | [TN n] =>
+        let k := Z.to_nat n in
+        (mkr c (mksock (inq s) (ineof s) (wsched s) (skipn k (outq s))) (rbad st), [TB (firstn k (outq s))])
+      | _ => bad end
+    else if name =? "flush_check" then (st, [])
     else if name =? "read_b" then
       let '(c', s', r) := read_blocking (decodable_of (rbad st)) c s in
       (mkr c' s' (rbad st), res_msg_toks r ++ st_toks c')
